@@ -141,6 +141,21 @@ def handle (op : String) (args : List String) (impl : String) : Option Verdict :
           | none => false
       | _ => false
     return ⟨model, ok, s!"histbtc:deliveries={min runs.length 4}:fault={runs.any fun r => faulted r.1 r.2.1}"⟩
+  | "submit", [kind, outcome, gas, ns] => some <| Id.run do
+    let some ns := natList ns | return bad
+    let g := if kind = "evm" then gas else "-"
+    let showSub := fun (x : List Nat) => joinOr (x.map toString) "," ++ "/" ++ g
+    let model := (if outcome = "ok" then "nil" else "err") ++ "|" ++ joinOr ((submitted ns).map showSub) ";"
+    let ok := match impl.splitOn "|" with
+      | [_, subs] =>
+        let parsed := (items subs ";").mapM fun it => match it.splitOn "/" with
+          | [xs, gg] => if gg == g then natList xs else none
+          | _ => none
+        match parsed with
+        | some ss => decide (PSubmit ns ss)
+        | none => false
+      | _ => false
+    return ⟨model, ok, s!"submit:{kind}:{outcome}:n={min ns.length 3}"⟩
   | "lookupevm", [src, dst, nonce, ans] => some <| Id.run do
     let some src := src.toNat? | return bad
     let some dst := dst.toNat? | return bad
